@@ -40,11 +40,12 @@ VALS = ['', 'v', 'w']
 # which predicates a property judges (the tie is always complete; when the tie breaks on a program, that program
 # is judged with every predicate so that a concrete failing input is reported)
 PREDICATES = {
-    'C01': ('infeasible', 'lifecycle', 'views'),
-    'C02': ('assigned', 'two-workers', 'lifecycle'),
+    'C01': ('infeasible', 'lifecycle', 'views', 'promised', 'valueError', 'earlyStop'),
+    'C02': ('assigned', 'two-workers', 'lifecycle', 'promised'),
     'C06': ('reported', 'poll', 'lifecycle'),
 }
-ALL_PREDICATES = ('infeasible', 'lifecycle', 'views', 'assigned', 'two-workers', 'reported', 'poll')
+ALL_PREDICATES = ('infeasible', 'lifecycle', 'views', 'assigned', 'two-workers', 'reported', 'poll', 'promised', 'valueError', 'earlyStop')
+LEAN_PREDICATES = ('infeasible', 'assigned', 'reported', 'poll', 'lifecycle', 'views', 'promised', 'valueError', 'earlyStop')
 
 WEIGHTS = {
     'C01': {'suggest': 10, 'complete': 14, 'add_measurement': 6, 'stop': 4, 'delete_trial': 3, 'trials': 4, 'get_trial': 2,
@@ -492,6 +493,14 @@ KEYS_WHAT = {
     'poll': ('client:client-poll-does-not-terminate', 'Study.suggest polled GetOperation more than the bound / did not come back'),
     'lifecycle': ('client:illegal-lifecycle-transition', 'a client call made a stored trial evolve illegally'),
     'views': ('client:illegal-lifecycle-through-trials-view', 'two successive Study.trials() views are not a legal evolution'),
+    'promised': ('client:promised-exception-or-value-missing',
+                 'Study.get_trial / Study.from_resource_name of something that does not exist did not raise ResourceNotFoundError, or suggest on a study that is not open did not return []'),
+    # the two documented behaviours the code as it exists does not have (known findings, kernel-checked counterexamples
+    # client_complete_value_error_counterexample / client_early_stop_counterexample)
+    'valueError': ('client:complete-with-nothing-to-select-does-not-raise-valueerror',
+                   'Trial.complete() without measurement / reason on a trial without intermediate measurements did not raise the documented ValueError'),
+    'earlyStop': ('client:check-early-stopping-true-leaves-trial-active',
+                  'Trial.check_early_stopping() returned True but the trial is not in STOPPING state as documented'),
 }
 
 
@@ -544,7 +553,7 @@ def evaluate(c, items, preds):
   for (k, i), v in zip(jctx, verdicts):
     if 'error' in v:
       raise core.InfraError('client judge: %s' % v)
-    for p in ('infeasible', 'assigned', 'reported', 'poll', 'lifecycle', 'views'):
+    for p in LEAN_PREDICATES:
       if p in preds and not v[p]:
         fails[k].append((i, p))
   if 'two-workers' in preds:
@@ -651,7 +660,11 @@ def stage(c, prop, backends=('ram', 'sqlmem')):
       if (key, be) in reported:
         continue
       reported.add((key, be))
-      small, ctx = shrink(c, prog, be, p)
+      if any(e['key'] == key for e in c.known):
+        # a recorded finding: the occurrence is reported as it is (no shrinking budget spent on it)
+        small, ctx = prog[:i + 1], {'obs': real['obs'][:i + 1], 'rpcs': real['rpcs'][:i + 1], 'after': real['snaps'][i]}
+      else:
+        small, ctx = shrink(c, prog, be, p)
       last = small[-1]
       c.prop_fail(key, (what % {'reason': last.get('reason'), 'worker': last.get('worker', HANDLE['cid'])}) + ' (backend %s): program %s -> %s' % (
           be, json.dumps([s['c'] for s in small]), json.dumps(ctx['obs'][-1])[:160]),
